@@ -22,6 +22,8 @@ Theorem C18_accepted_never_rejected : forall c,
 Proof. exact accepted_never_rejected. Qed.
 Print Assumptions C18_accepted_never_rejected.
 
+(* the same for every history of validations on one store instance: each verdict is the one the
+   store state at that moment prescribes *)
 Theorem C18_oracle : forall c : case, known c = 0 -> oracle c (run c) = true.
 Proof. intros c _. apply oracle_holds. Qed.
 Print Assumptions C18_oracle.
